@@ -33,6 +33,7 @@ type Program struct {
 	ByPath map[string]*packages.Package
 	decls  map[*types.Func]*ast.FuncDecl
 	infoOf map[*types.Package]*types.Info
+	extra  []string // generator packages beyond the four, sorted
 }
 
 // GoEnv returns the environment used for every go command the checker spawns.
@@ -95,6 +96,28 @@ func Load(repo string) (*Program, error) {
 		}
 		p.Moq[path] = pk
 	}
+	// further packages of the module that the generator is built from (a package split off one of the
+	// four): whatever package main imports, directly or not, inside the module
+	var visit func(pk *packages.Package)
+	seen := map[string]bool{}
+	visit = func(pk *packages.Package) {
+		if pk == nil || seen[pk.PkgPath] {
+			return
+		}
+		seen[pk.PkgPath] = true
+		if pk.PkgPath != ModulePath && !strings.HasPrefix(pk.PkgPath, ModulePath+"/") {
+			return
+		}
+		if _, known := p.Moq[pk.PkgPath]; !known && pk.Types != nil && len(pk.Syntax) > 0 {
+			p.Moq[pk.PkgPath] = pk
+			p.extra = append(p.extra, pk.PkgPath)
+		}
+		for _, imp := range pk.Imports {
+			visit(imp)
+		}
+	}
+	visit(p.Moq[PkgMain])
+	sort.Strings(p.extra)
 	if len(errs) > 0 {
 		return nil, fmt.Errorf("load: %d type/list errors in moq packages, first: %s", len(errs), errs[0])
 	}
@@ -118,7 +141,7 @@ func Load(repo string) (*Program, error) {
 // MoqPackages returns the four generator packages in a fixed order.
 func (p *Program) MoqPackages() []*packages.Package {
 	var out []*packages.Package
-	for _, k := range []string{PkgMain, PkgMoq, PkgRegistry, PkgTemplate} {
+	for _, k := range append([]string{PkgMain, PkgMoq, PkgRegistry, PkgTemplate}, p.extra...) {
 		if pk := p.Moq[k]; pk != nil {
 			out = append(out, pk)
 		}
